@@ -16,6 +16,10 @@
 #if ADA_INCLUDE_URL_PATTERN
 namespace ada {
 
+#if ADA_URL_ADA_VERIF
+inline bool verif_force_regexp_component = false;
+#endif
+
 inline bool url_pattern_init::operator==(const url_pattern_init& other) const {
   return protocol == other.protocol && username == other.username &&
          password == other.password && hostname == other.hostname &&
@@ -178,6 +182,14 @@ url_pattern_component<regex_provider>::compile(
     }
   }
 
+#if ADA_URL_ADA_VERIF
+  // Verification hook (no effect unless a test harness sets the flag): compile
+  // every component to a regular expression, so that the literal / wildcard /
+  // empty shortcuts can be compared with the general path.
+  if (ada::verif_force_regexp_component) {
+    component_type = url_pattern_component_type::REGEXP;
+  }
+#endif
   // For simple patterns, skip regex generation and compilation entirely
   if (component_type != url_pattern_component_type::REGEXP) {
     auto pattern_string =
